@@ -5,8 +5,11 @@ import fcntl, glob, hashlib, json, os, shutil, subprocess, sys, time, uuid
 
 VERIF = os.path.dirname(os.path.dirname(os.path.abspath(__file__)))
 REPO = os.environ.get("NX_REPO", "/repo")
-CACHE = os.path.join(VERIF, ".cache")
-OUT = os.path.join(VERIF, "out")
+# NX_SCRATCH (development only): keep build caches, facts and evidence of a run against a scratch copy of the repository
+# (NX_REPO) apart from the registered checks' own
+SCRATCH = os.environ.get("NX_SCRATCH")
+CACHE = os.path.join(SCRATCH or VERIF, ".cache")
+OUT = os.path.join(SCRATCH or VERIF, "out")
 DRIVER = os.path.join(VERIF, "driver", "target", "release", "nxfacts")
 MEMBERS = ["nexrad", "nexrad_model", "nexrad_decode", "nexrad_data"]
 
@@ -17,9 +20,18 @@ CONFIGS = {
 }
 
 
+def _driver_stamp():
+    h = hashlib.sha256()
+    for p in sorted(glob.glob(os.path.join(VERIF, "driver", "src", "*.rs"))):
+        with open(p, "rb") as fh:
+            h.update(fh.read())
+    return h.hexdigest()[:16]
+
+
 def tree_hash(root=None):
     root = root or REPO
     h = hashlib.sha256()
+    h.update(_driver_stamp().encode())      # facts depend on the extractor too
     files = []
     for d, dirs, fs in os.walk(root):
         dirs[:] = [x for x in dirs if x not in ("target", ".git")]
@@ -56,10 +68,14 @@ class Lock:
 
 
 def ensure_driver():
-    if not os.path.exists(DRIVER):
+    stamp = DRIVER + ".src"
+    cur = _driver_stamp()
+    if not os.path.exists(DRIVER) or not os.path.exists(stamp) or open(stamp).read().strip() != cur:
         env = dict(os.environ, CARGO_NET_OFFLINE="true")
         subprocess.run(["cargo", "+nightly", "build", "--release", "--offline"], cwd=os.path.join(VERIF, "driver"), env=env, check=True,
                        stdout=subprocess.DEVNULL, stderr=subprocess.DEVNULL)
+        with open(stamp, "w") as fh:
+            fh.write(cur)
     return DRIVER
 
 
